@@ -433,6 +433,11 @@ func (c *reqCase) settings() []erpc.MessageSetting {
 
 const waitLong = 15 * time.Second
 
+// pairTimeout is the watchdog for one pair (normally a few milliseconds); maxFailedPairs stops
+// the run early: once the property is broken every later pair would only repeat it slowly.
+const pairTimeout = 10 * time.Second
+const maxFailedPairs = 6
+
 // doRequest sends the case on sess and fills the caller part of the observation.
 func doRequest(sess erpc.Session, c *reqCase, o *obs) {
 	if c.push {
@@ -476,6 +481,10 @@ func syncCall(sess erpc.Session, method string) bool {
 // ---------------------------------------------------------------------------------------
 
 type world struct {
+	stMu    sync.Mutex
+	phase   string // what the pair is doing right now (reported by the watchdog)
+	aborted bool   // the watchdog gave up on this world; a late goroutine must not touch shared state
+
 	bePeer, pxPeer, clPeer, fwPeer erpc.Peer
 	beLis, pxLis                   *Listener
 	pxArr                          *arrivalPlugin
@@ -507,6 +516,30 @@ func newWorld() *world {
 	return w
 }
 
+func (w *world) at(phase string) {
+	w.stMu.Lock()
+	w.phase = phase
+	w.stMu.Unlock()
+}
+
+func (w *world) where() string {
+	w.stMu.Lock()
+	defer w.stMu.Unlock()
+	return w.phase
+}
+
+func (w *world) abort() {
+	w.stMu.Lock()
+	w.aborted = true
+	w.stMu.Unlock()
+}
+
+func (w *world) gone() bool {
+	w.stMu.Lock()
+	defer w.stMu.Unlock()
+	return w.aborted
+}
+
 func (w *world) dial(p erpc.Peer, addr string) erpc.Session {
 	s, st := p.Dial(addr)
 	if !st.OK() {
@@ -516,12 +549,18 @@ func (w *world) dial(p erpc.Peer, addr string) erpc.Session {
 }
 
 func (w *world) newForward() {
+	if w.gone() {
+		return
+	}
 	w.fsess = w.dial(w.fwPeer, w.beLis.Addr)
 	names.set("forward", w.fsess.LocalAddr().String())
 	setFwd(w.fsess)
 }
 
 func (w *world) newCaller() {
+	if w.gone() {
+		return
+	}
 	w.csess = w.dial(w.clPeer, w.pxLis.Addr)
 	names.set("caller", w.csess.LocalAddr().String())
 }
@@ -571,14 +610,63 @@ func (w *world) runDirect(c *reqCase) *obs {
 	sc := *c.sc
 	sc.block, sc.entered = nil, nil
 	be.reset(&sc)
+	w.at("direct: request sent, waiting for the caller to complete")
 	doRequest(w.dsess, c, o)
+	w.at("direct: barrier call on the direct session")
 	if !syncCall(w.dsess, "/b/sync") {
 		o.timeout = true
 	}
+	w.at("direct: waiting for the backend handler")
 	waitInvoked(c)
 	o.arrived, o.invoked, o.seen = be.snap()
 	o.normNow()
 	return o
+}
+
+// pairResult is everything one pair observes on the live peers; the oracle works on it alone.
+type pairResult struct {
+	d, p         *obs
+	otherStat    string // a call on an unrelated closed session (after a backend failure)
+	otherCode    int32
+	missingStat  string // a direct call of a missing method (after a backend failure)
+	missingCode  int32
+	laterChecked bool
+	after        *obs // a healthy proxied call right after a proxied call that ended non-OK
+}
+
+func (w *world) runPair(c *reqCase) *pairResult {
+	res := &pairResult{}
+	res.d = w.runDirect(c)
+	if w.gone() {
+		return res
+	}
+	res.p = w.runProxied(c)
+	if w.gone() || c.route == "own" {
+		return res
+	}
+	if c.fail != "none" {
+		// that call only: unrelated failures still report their own codes
+		w.at("follow-up: call on an unrelated closed session, direct call of a missing method")
+		other := w.dial(w.clPeer, w.beLis.Addr)
+		other.Close()
+		var r []byte
+		s1 := other.Call("/b/raw", []byte("x"), &r).Status()
+		res.otherStat, res.otherCode = triple(s1), s1.Code()
+		s2 := w.dsess.Call("/b/nope", []byte("x"), &r).Status()
+		res.missingStat, res.missingCode = triple(s2), s2.Code()
+		res.laterChecked = true
+	}
+	if c.fail != "none" || (!c.push && res.p.code != 0) {
+		// on purpose: a proxied call that ended non-OK (backend status or Bad Gateway) is
+		// followed by a proxied call the backend answers OK
+		w.at("follow-up: healthy proxied call after a non-OK one")
+		chk := &reqCase{method: "/b/raw", body: []byte("again"), codec: 's', sc: &script{}}
+		be.reset(&script{})
+		res.after = &obs{}
+		doRequest(w.csess, chk, res.after)
+	}
+	w.at("pair done")
+	return res
 }
 
 func sentinelSnapshot() string {
@@ -610,6 +698,7 @@ func (w *world) runProxied(c *reqCase) *obs {
 	pxBefore := w.pxArr.get()
 
 	// arrange the failure
+	w.at("proxied: arranging the backend failure " + c.fail)
 	switch c.fail {
 	case "closed-local":
 		w.fsess.Close()
@@ -625,10 +714,15 @@ func (w *world) runProxied(c *reqCase) *obs {
 	}
 	caller := w.csess
 	if c.push {
+		w.at("proxied: closing the previous caller session (waits for its pending calls)")
 		w.csess.Close()
 		w.newCaller()
 		caller = w.csess
 	}
+	if w.gone() {
+		return o
+	}
+	w.at("proxied: request sent, waiting for the caller to complete")
 	if sc.block != nil {
 		go func() {
 			select {
@@ -642,6 +736,10 @@ func (w *world) runProxied(c *reqCase) *obs {
 	if sc.block != nil {
 		close(sc.block)
 	}
+	if w.gone() {
+		return o
+	}
+	w.at("proxied: quiescence (barrier calls, graceful close of the proxy-side session)")
 	if c.push {
 		// quiescence: the proxy has read the push, its handler context is registered (the /p/sync
 		// call is read after it by the same reader goroutine), then a graceful close of the
@@ -677,6 +775,10 @@ func (w *world) runProxied(c *reqCase) *obs {
 	o.fwdIsConn = fwdRec.stat != nil && fwdRec.stat == erpc.VerifSentinels()["statConnClosed"]
 	o.labelIP, o.labelMeth = names.norm(fwdRec.label.RealIP), fwdRec.label.ServiceMethod
 	fwdRec.mu.Unlock()
+	if w.gone() {
+		return o
+	}
+	w.at("proxied: re-dialling sessions for the next pair")
 	if c.push {
 		caller.Close()
 		w.newCaller()
@@ -1152,6 +1254,7 @@ func runC19(cfg *RunCfg) {
 	cw := NewCaseWriter(cfg)
 	distinct := DistinctSet{}
 	sent0 := sentinelSnapshot()
+	failedPairs, evaluated := 0, 0
 
 	for i := 0; i < cfg.N; i++ {
 		var c *reqCase
@@ -1203,13 +1306,30 @@ func runC19(cfg *RunCfg) {
 		c.marVal = VL(mar...)
 
 		h := human(c)
-		d := w.runDirect(c)
-		p := w.runProxied(c)
+		failuresBefore := len(st.OracleFailures)
+		if failedPairs >= maxFailedPairs {
+			st.Count("stopped-after-failing-pairs")
+			break
+		}
+		evaluated = i + 1
+		resCh := make(chan *pairResult, 1)
+		go func(w *world) { resCh <- w.runPair(c) }(w)
+		var res *pairResult
+		select {
+		case res = <-resCh:
+		case <-time.After(pairTimeout):
+			st.Fail(i, "caller-never-completes", fmt.Sprintf("the pair did not finish within %s; stuck at: %s", pairTimeout, w.where()), h)
+			w.abort()
+			w = newWorld()
+			failedPairs++
+			continue
+		}
+		d, p := res.d, res.p
 		sent1 := sentinelSnapshot()
 
 		// ---- property oracle on the implementation alone ----
 		if d.timeout || p.timeout {
-			st.Fail(i, "timeout", "a call or a quiescence wait timed out", h)
+			st.Fail(i, "barrier-call-failed", "a barrier call on a healthy session did not return OK, or a call timed out", h)
 		}
 		unchanged := sent1 == sent0
 		if !unchanged {
@@ -1269,22 +1389,21 @@ func runC19(cfg *RunCfg) {
 				st.Fail(i, "forwarded-once", fmt.Sprintf("failure %s: forwarder used %d times, backend received %d requests (want %d)", c.fail, p.fwdCalls, p.arrived, wantArr), h)
 			}
 			// that call only: unrelated failures still report their own codes
-			other := w.dial(w.clPeer, w.beLis.Addr)
-			other.Close()
-			var r []byte
-			if s := other.Call("/b/raw", []byte("x"), &r).Status(); s.Code() != erpc.CodeConnClosed {
-				st.Fail(i, "later-failure-code", "a call on an unrelated closed session reports "+triple(s), h)
+			if res.laterChecked && res.otherCode != erpc.CodeConnClosed {
+				st.Fail(i, "later-failure-code", "a call on an unrelated closed session reports "+res.otherStat, h)
 			}
-			if s := w.dsess.Call("/b/nope", []byte("x"), &r).Status(); s.Code() != erpc.CodeNotFound {
-				st.Fail(i, "later-failure-code", "a direct call of a missing method reports "+triple(s), h)
+			if res.laterChecked && res.missingCode != erpc.CodeNotFound {
+				st.Fail(i, "later-failure-code", "a direct call of a missing method reports "+res.missingStat, h)
 			}
-			// and the proxy works again for the next request
-			chk := &reqCase{method: "/b/raw", body: []byte("again"), codec: 's', sc: &script{}}
-			be.reset(&script{})
-			o2 := &obs{}
-			doRequest(w.csess, chk, o2)
-			if o2.stat != VS("ok") || string(o2.result) != "again" {
-				st.Fail(i, "recovery", "after the failure a healthy forward gives "+o2.stat, h)
+		}
+		// and the proxy is transparent again for the next request: a proxied call the backend
+		// answers OK right after one that ended non-OK
+		if res.after != nil {
+			st.Count("sequence:non-ok-then-ok")
+			if res.after.timeout {
+				st.Fail(i, "caller-never-completes", "the healthy proxied call after a non-OK one never completed", h)
+			} else if res.after.stat != VS("ok") || string(res.after.result) != "again" {
+				st.Fail(i, "proxied-differs-after-error", "a proxied call the backend answers OK, sent right after a proxied call that ended "+p.stat+", gives "+res.after.stat+" result "+Hx(clip(res.after.result)), h)
 			}
 		}
 
@@ -1328,8 +1447,11 @@ func runC19(cfg *RunCfg) {
 		if len(st.Samples) < 6 {
 			st.Samples = append(st.Samples, h+" => direct "+d.stat+" proxied "+p.stat)
 		}
+		if len(st.OracleFailures) > failuresBefore {
+			failedPairs++
+		}
 	}
-	st.Evaluations = cfg.N
+	st.Evaluations = evaluated
 	st.DistinctNontrivial = len(distinct)
 	st.Write(cfg, cw)
 }
